@@ -1003,10 +1003,10 @@ def gen_hint(rng, depth=3, hashable=False, families=None, leafy=0.3):
             else:
                 members = [{'k': 'map', 'o': 'dict', 'a': [{'k': 'cls', 'n': 'str'}, {'k': 'cls', 'n': l}]} for l in leaves]
             if rng.random() < 0.4:
-                members.append(gen_hint(rng, d, hashable, families))
+                members.append(_no_subscripted_alias(rng, gen_hint(rng, d, hashable, families), hashable))
             rng.shuffle(members)
             return {'k': 'union', 'a': members}
-        return {'k': 'union', 'a': [gen_hint(rng, d, hashable, families) for _ in range(n)]}
+        return {'k': 'union', 'a': [_no_subscripted_alias(rng, gen_hint(rng, d, hashable, families), hashable) for _ in range(n)]}
     if f == 'pipe':
         n = rng.randint(2, 3)
         a = [gen_hint(rng, d, hashable, families) for _ in range(n)]
@@ -1023,7 +1023,7 @@ def gen_hint(rng, depth=3, hashable=False, families=None, leafy=0.3):
             a.append({'k': 'cls', 'n': rng.choice(['int', 'str', 'bytes'])})
         return {'k': 'pipe', 'a': a}
     if f == 'opt':
-        return {'k': 'opt', 'a': [gen_hint(rng, d, hashable, families)]}
+        return {'k': 'opt', 'a': [_no_subscripted_alias(rng, gen_hint(rng, d, hashable, families), hashable)]}
     if f == 'lit':
         n = rng.randint(1, 3)
         return {'k': 'lit', 'v': rng.sample(LITERAL_POOL, n)}
@@ -1093,6 +1093,15 @@ def gen_hint(rng, depth=3, hashable=False, families=None, leafy=0.3):
             return {'k': 'gen', 'n': n, 'a': [gen_hint(rng, d, False, families), gen_hint(rng, d, False, families)]}
         return {'k': 'gen', 'n': n, 'a': [gen_hint(rng, d, False, families)]}
     raise ValueError(f)
+
+
+def _no_subscripted_alias(rng, h, hashable):
+    """A subscripted PEP 695 alias as a *direct* member of a union is refused by beartype with a public exception
+    (BeartypeDecorHintPep604Exception: CPython gives 'Alias[int] | int' the repr of a typing.Union, which beartype documents as an
+    unsupported, inconsistent hint) - in typing.Union[...] and Optional[...] exactly as in X | Y. Not a supported hint: replaced."""
+    if h['k'] == 'exo' and h['n'] == 'Alias695Generic':
+        return _gen_leaf(rng, hashable)
+    return h
 
 
 def _gen_leaf(rng, hashable):
